@@ -11,6 +11,7 @@ import json, os, random, re
 from vlib import *  # noqa
 import docs, project
 
+METASLOTS = ("meta", "metaquote", "metalist", "metapipe")
 LEVEL = "model_checking"
 GEN = "CONSTANTS Mode = \"%s\"\n MaxBlocks = %d\n Sim = %s\nINIT Init\nNEXT Next\nINVARIANTS EscLaw Emit\nCHECK_DEADLOCK FALSE\n"
 FM = ["html", "latex", "beamer", "memoir", "fodt", "opml"]
@@ -53,7 +54,7 @@ def run(tier, seed):
         for j, c in enumerate(esc[i:i + per]):
             s.append(line("src", "e%d" % j, sx(c["src"]))); s.append(line("src", "b%d" % j, sx(c["base"])))
             for f in FM:
-                x = NOSMART | (E["COMPLETE"] if c["slot"] in ("meta", "glossary", "abbrev") else 0)      # (a LaTeX glossary entry is defined in the preamble: only the complete document shows it)
+                x = NOSMART | (E["COMPLETE"] if c["slot"] in METASLOTS + ("glossary", "abbrev") else 0)      # (a LaTeX glossary entry is defined in the preamble: only the complete document shows it)
                 fam = "s_data" if f == "fodt" else "s_conv"          # the flat OpenDocument is a document only through convert_to_data
                 s.append(line("conv", fam, "e%d" % j, docs.FMT[f], x, 0)); s.append(line("conv", fam, "b%d" % j, docs.FMT[f], x, 0))
         segs.append(s); meta.append(("esc", i))
@@ -110,7 +111,7 @@ def run(tier, seed):
                 if c["slot"] in ("title", "imgtitle") and c["chname"] == "quot": continue      # a double quote cannot be written inside a double-quoted title
                 if c["slot"] in ("url", "imgurl") and c["chname"] in ("quot", "lt", "gt", "bslash", "apos", "lbrace", "rbrace", "bar"): continue     # characters that end or change an address in Markdown itself
                 if c["slot"] == "alt" and c["chname"] in ("bslash", "bar"): continue  # needs a backslash escape in Markdown; the alt attribute shows the description's source spelling (not judged)
-                visible = not (c["slot"] in ("title", "alt", "imgtitle") and fmt != "html") and not (c["slot"] == "imgurl" and fmt == "opml" and False) and not (c["slot"] == "meta" and fmt == "opml" and False)
+                visible = not (c["slot"] in ("title", "alt", "imgtitle") and fmt != "html") and not (c["slot"] == "imgurl" and fmt == "opml" and False) and not (c["slot"] in METASLOTS and fmt == "opml" and False)
                 trace.append(dict(e="esc", visible=visible, null=out is None, fmt=fmt, slot=c["slot"], ch=c["ch"], chname=c["chname"], segs=sg, count=len(sg), basecount=len(bs), src=c["src"]))
             else:
                 b = blocks[base + int(sid[1:])]
@@ -118,7 +119,7 @@ def run(tier, seed):
                 trace.append(dict(e="order", null=out is None, fmt="html" if fmt == "html" else "other", fmtname=fmt, ks=b["ks"], words=words, src=b["src"]))
             if kind == "esc" and esc[base + int(sid[1:])]["slot"] in ("url", "imgurl") and fmt in ("latex", "beamer", "memoir"):
                 continue        # an address is handed to \href / \includegraphics as it is: '$', '{', '%' in it are not markup (the small lexer cannot know)
-            if kind == "esc" and esc[base + int(sid[1:])]["slot"] in ("meta", "glossary", "abbrev") and fmt in ("latex", "beamer", "memoir"):
+            if kind == "esc" and esc[base + int(sid[1:])]["slot"] in METASLOTS + ("glossary", "abbrev") and fmt in ("latex", "beamer", "memoir"):
                 continue        # a complete LaTeX document opens \begin{document} inside the \input support file: nesting cannot be judged from this file alone
             ok, evs, _ = nesting(fmt, out or b"")
             trace.append(dict(e="nest", fmtname=fmt, parsed=ok, events=evs, src=(esc[base + int(sid[1:])]["src"] if kind == "esc" else blocks[base + int(sid[1:])]["src"])))
